@@ -19,17 +19,19 @@ TECHNIQUE = ("Coq proof (conflict list of the merge model = the declarative conf
 LEVEL_TEXT = ("Proof (F/M): for every ancestor/left/right table the conflict list of the merge model is exactly the declarative conflict entries "
               "(base, ours, theirs) — unconditionally for equal schemas, in C29's schema class otherwise — and for every table and conflict list "
               "resolving with ours/theirs leaves every conflicted key with exactly that version (deleted when absent), every other key untouched, "
-              "and no conflicts (resolve_spec, resolve_idempotent). Tied to the code by conflicted merges of generated divergent histories, "
+              "and no conflicts (resolve_spec, resolve_idempotent); the secondary-index maintenance of resolve --theirs keeps the index mirroring the table (resolve_preserves_mirror); the oracle accepts the model on every input (oracle_on_model). Tied to the code by conflicted merges of generated divergent histories, "
               "dolt_conflicts_t and dolt_conflicts_resolve on two copies of each merge.")
 LEVEL_NOTE = ("Trusted: Coq kernel, Go harness (SQL script runner), Python glue. Modelled, not verified: SQL DML (input tables are read back), the artifact "
-              "map encoding, secondary-index maintenance during resolve (an index is present in a quarter of the cases and a lookup through it is not compared), "
+              "map encoding, the prolly encoding of secondary indexes (the index is modelled by its entry set; resolve_preserves_mirror proves the maintenance keeps it mirroring the table, and in the quarter of the cases with an index every value of the indexed column is looked up after both resolutions and compared), "
               "schema-changing merges (dolt refuses to resolve when the table schema differs from the chosen side's: ErrConfSchIncompatible; not generated).")
-THEOREMS = ["resolve_spec", "resolve_theirs_spec", "resolve_idempotent", "conflicts_exact_spec", "conflicts_exact_same_schema"]
+THEOREMS = ["resolve_spec", "resolve_theirs_spec", "resolve_idempotent", "conflicts_exact_spec", "conflicts_exact_same_schema",
+            "resolve_preserves_mirror", "conflict_keys_distinct", "mirror_build", "oracle_on_model"]
 RULE = ("C29's generator without schema changes: 1-2 int key columns, 2-4 nullable int/varchar columns, 0-12 base rows, two branches of 0-7 "
         "inserts/updates/deletes biased to a hot set of keys and cells, optional secondary index; conflicted merge, then resolve --ours and --theirs on "
         "separate copies; non-trivial = at least one conflict; distinct by script text")
 ASSUMPTIONS = ["no schema change between the branches (dolt_conflicts_resolve rejects differing schemas)"]
-REQUIRED_TAGS = ["conflict", "no-conflict", "modify-modify", "delete-modify", "insert-insert", "theirs-absent", "ours-absent", "untouched-rows"]
+REQUIRED_TAGS = ["conflict", "no-conflict", "modify-modify", "delete-modify", "insert-insert", "theirs-absent", "ours-absent", "untouched-rows",
+                 "index-lookup-after-resolve"]
 
 
 def gen_one(rng):
@@ -68,8 +70,23 @@ def with_steps(c):
         q("call dolt_conflicts_resolve('%s', 't')" % how, name + "r")
         q(sel, name + "rt")
         q("select count(*) from dolt_conflicts_t", name + "rc")
+        for j, v in enumerate(probes(c)):
+            # lookup through the secondary index on the first non-key column
+            q("select %s from t where c0 = %s order by %s" % (", ".join(c["pk"]), v, ", ".join(c["pk"])), "%sx%d" % (name, j))
     c["steps"] = S
     return c
+
+
+def probes(c):
+    """literals looked up through the index (none when the table has no secondary index)"""
+    if not c.get("index"):
+        return []
+    ty = "int" if " c0 int" in c["setup"][0] else "str"
+    return [str(v) for v in g.INTS] if ty == "int" else ["'%s'" % v for v in g.STRS]
+
+
+def probe_val(lit):
+    return g.val("s:" + lit.strip("'")) if lit.startswith("'") else int(lit)
 
 
 def fixed_cases():
@@ -113,6 +130,16 @@ def parse(case, out):
     d["same"] = (sorted(map(repr, conf2)) == sorted(map(repr, d["conf"])) and rows2 == d["rows"])
     _, d["ours"] = g.read_table(o["mort"], pk)
     _, d["theirs"] = g.read_table(o["mtrt"], pk)
+    pki = list(range(len(pk)))
+    for name, key in (("mo", "ours_ix"), ("mt", "theirs_ix")):
+        d[key] = []
+        for j, v in enumerate(probes(case)):
+            res = o.get("%sx%d" % (name, j))
+            if res is None or res["err"]:
+                d["err"] = True
+                d["errtxt"] = "index lookup failed"
+                return d
+            d[key].append((probe_val(v), [g.keyN([g.val(r[i]) for i in pki]) for r in res["rows"]]))
     d["ours_left"] = g.val(o["morc"]["rows"][0][0]) if o["morc"]["rows"] else 99
     d["theirs_left"] = g.val(o["mtrc"]["rows"][0][0]) if o["mtrc"]["rows"] else 99
     return d
@@ -120,15 +147,21 @@ def parse(case, out):
 
 def coq_case(case, out):
     d = parse(case, out)
-    bad = "{| o_err := true; o_rows := []; o_conf := []; o_ours := []; o_ours_left := 9; o_theirs := []; o_theirs_left := 9 |}"
+    bad = ("{| o_err := true; o_rows := []; o_conf := []; o_ours := []; o_ours_left := 9; o_theirs := []; o_theirs_left := 9; "
+           "o_ours_ix := []; o_theirs_ix := [] |}")
     if d is None:
-        return "({| i_s := []; i_b := []; i_l := []; i_r := [] |}, %s)" % bad
-    inp = "{| i_s := %s; i_b := %s; i_l := %s; i_r := %s |}" % (g.cq_sch(d["s"]), g.cq_table(d["B"]), g.cq_table(d["L"]), g.cq_table(d["R"]))
+        return "({| i_s := []; i_b := []; i_l := []; i_r := []; i_probes := [] |}, %s)" % bad
+    inp = "{| i_s := %s; i_b := %s; i_l := %s; i_r := %s; i_probes := %s |}" % (
+        g.cq_sch(d["s"]), g.cq_table(d["B"]), g.cq_table(d["L"]), g.cq_table(d["R"]), cq_list(g.cq_cell(probe_val(v)) for v in probes(case)))
     if d["err"] or not d["same"]:
         return "(%s, %s)" % (inp, bad)
     conf = cq_list("(%d, (%s, %s, %s))" % (k, g.cq_orow(b), g.cq_orow(o_), g.cq_orow(t)) for k, b, o_, t in d["conf"])
-    return "(%s, {| o_err := false; o_rows := %s; o_conf := %s; o_ours := %s; o_ours_left := %d; o_theirs := %s; o_theirs_left := %d |})" % (
-        inp, g.cq_table(d["rows"]), conf, g.cq_table(d["ours"]), d["ours_left"], g.cq_table(d["theirs"]), d["theirs_left"])
+    def ix(l):
+        return cq_list("(%s, %s)" % (g.cq_cell(v), cq_list(str(k) for k in ks)) for v, ks in l)
+    return ("(%s, {| o_err := false; o_rows := %s; o_conf := %s; o_ours := %s; o_ours_left := %d; o_theirs := %s; o_theirs_left := %d; "
+            "o_ours_ix := %s; o_theirs_ix := %s |})") % (
+        inp, g.cq_table(d["rows"]), conf, g.cq_table(d["ours"]), d["ours_left"], g.cq_table(d["theirs"]), d["theirs_left"],
+        ix(d["ours_ix"]), ix(d["theirs_ix"]))
 
 
 def classify(case, out):
@@ -140,6 +173,8 @@ def classify(case, out):
     t = ["conflict" if d["conf"] else "no-conflict"]
     if case.get("index"):
         t.append("with-index")
+        if d["conf"] and any(ks for _, ks in d["theirs_ix"]):
+            t.append("index-lookup-after-resolve")
     ck = set()
     for k, b, o_, th in d["conf"]:
         ck.add(k)
